@@ -406,15 +406,25 @@ def _bisection(b, h, us, body, dom):
         if dl is None:
             continue
         cmp_rv = _def_in_block_chain(b, dl, body)
-        if cmp_rv is None or cmp_rv[0] != "bin" or cmp_rv[1] not in ("Lt", "Gt"):
+        if cmp_rv is None or cmp_rv[0] != "bin" or cmp_rv[1] not in ("Lt", "Gt", "Le", "Ge"):
             continue
         xl, yl = op_local(cmp_rv[2]), op_local(cmp_rv[3])
         if xl is None or yl is None:
             continue
-        lo, hi = (_copy_source(b, xl), _copy_source(b, yl)) if cmp_rv[1] == "Lt" else (_copy_source(b, yl), _copy_source(b, xl))
         arms = dict((int(val), tgt) for val, tgt in t.d[2])
-        if 0 not in arms or arms[0] in body or t.d[3] not in body:
-            continue            # must leave the loop when `lo < hi` is false
+        if 0 not in arms:
+            continue
+        false_in, true_in = arms[0] in body, t.d[3] in body
+        if false_in == true_in:
+            continue
+        # the relation between x and y that holds while the loop continues
+        rel = cmp_rv[1] if true_in else {"Lt": "Ge", "Le": "Gt", "Gt": "Le", "Ge": "Lt"}[cmp_rv[1]]
+        if rel == "Lt":
+            lo, hi = _copy_source(b, xl), _copy_source(b, yl)
+        elif rel == "Gt":
+            lo, hi = _copy_source(b, yl), _copy_source(b, xl)
+        else:
+            continue            # the loop must run exactly while `lo < hi`
         if lo not in defs_in or hi not in defs_in or lo == hi:
             continue
         ok = True
